@@ -457,6 +457,9 @@ def gen_plan(seed, index, tier='quick'):
                     steps[i - 1]['label']['fault'] != 'none'
                     or (i == cell_at and steps[i - 1]['fmt'] != c[0])):
                 how = 'fresh'     # (the fault would travel with the objects)
+            if how == 'from_readback' and \
+                    steps[i - 1]['label']['fault'] != 'none':
+                how = 'fresh'     # (... or with the file)
             if how == 'same_objects':
                 c = (steps[i - 1]['fmt'],) + tuple(c[1:])
             if how != 'fresh' and i != cell_at and ops.chance(0.5):
@@ -645,7 +648,8 @@ class Run:
     def violation(self, oracle, step_i, step, detail, extra=None):
         sig = {'property': PROPERTY, 'oracle': oracle, 'fmt': step['fmt'],
                'detail': detail,
-               'fault': (step.get('label') or {}).get('fault', '')}
+               'fault': (step.get('label') or {}).get('fault', ''),
+               'damage': (extra or {}).get('damage', '')}
         v = {'oracle': oracle, 'step': step_i, 'fmt': step['fmt'],
              'detail': detail, 'label': step.get('label'), 'extra': extra}
         from sim.findings import match_known
@@ -670,14 +674,20 @@ class Run:
             dest_path = os.fsencode(dest_path)
         regs = [build(r) for r in step['regions']]
         src = step.get('source')
+        from_recipes = True
         if src == 'same_objects' and getattr(self, 'prev_regs', None) \
-                is not None and len(self.prev_regs) == len(regs):
+                is not None and step['regions'] == self.prev_recipes \
+                and self.prev_from_recipes:
+            # (only while the plan still says so: a minimised plan whose
+            # steps no longer share their recipes builds fresh objects)
             regs = self.prev_regs
         elif src == 'from_readback':
             got = self.read_prev()
             if got is not None:
                 regs = got
+                from_recipes = False
         self.last_regs = regs
+        self.last_from_recipes = from_recipes
         kw = {k: build(v) for k, v in step['kwargs'].items()}
         if step['overwrite'] is not None:
             import numpy as np
@@ -834,6 +844,8 @@ class Run:
             if step.get('source') == 'from_readback' else None
         outcome, wrec = self.call_write(step, dest_path, trace)
         self.prev_regs = self.last_regs if outcome[0] == 'ok' else None
+        self.prev_recipes = step['regions']
+        self.prev_from_recipes = self.last_from_recipes
         after = snapshot(self.disk)
         changes = snap_diff(before, after)
         ev = {'step': i, 'fmt': step['fmt'], 'api': step['api'],
@@ -853,12 +865,25 @@ class Run:
                 st['fault_fired'][fault] = st['fault_fired'].get(fault, 0) + 1
             # W2 failure atomicity (covers W1's "byte-identical" too)
             if changes:
+                # the shape of the damage (a known finding is matched on it,
+                # so that it cannot swallow damage of another kind)
+                damage = 'other'
+                try:
+                    inodes = {os.lstat(os.path.join(self.disk, c[0])).st_ino
+                              for c in changes}
+                except OSError:
+                    inodes = set()
+                if all(c[0] in reachable and
+                       (c[2] or [None])[:2] == ['file', 0] for c in changes) \
+                        and len(inodes) == 1:
+                    # one file (under all its names), now empty
+                    damage = 'destination-left-empty'
                 self.violation(
                     'W2-atomic', i, step,
                     f'write raised {outcome[1]} but the disk changed: '
                     + '; '.join(_describe_change(c) for c in changes),
                     {'exception': outcome[1:3], 'overwrite': step['overwrite'],
-                     'dest_before': dest_before})
+                     'dest_before': dest_before, 'damage': damage})
             if refuse:
                 st['refused'] += 1
                 if not outcome[3]:
